@@ -10,6 +10,8 @@ import vczspec
 ID = "C01"
 LEAN_MODULES = ["B2Z.Props.C01"]
 THEOREMS = [
+    "B2Z.Rows.C01_float_bits_exact", "B2Z.Rows.C01_float_missing_fill", "B2Z.Rows.C01_float_sentinels",
+    "B2Z.Rows.C01_rows_no_truncation", "B2Z.Rows.C01_string_row",
     "B2Z.Pipe.splitBy_flatten", "B2Z.Pipe.icfOf_all", "B2Z.Pipe.C01_pipeline_refines_spec",
     "B2Z.Pipe.C03_config_invariant", "B2Z.Pipe.C03_max_chunks_prefix", "B2Z.Pipe.C02_chunk_grid_complete",
 ]
@@ -127,7 +129,73 @@ def pipeline_model_case(ctx, spec, work, tag):
     shutil.rmtree(icf, ignore_errors=True)
 
 
+def encoder_grid(ctx):
+    """real sanitise_value_float_1d / _2d / string_1d vs Model.Rows, bit patterns compared"""
+    import numpy as np
+    from bio2zarr.vcf2zarr import icf
+    rng = ctx.rng
+    pool = [0x00000000, 0x80000000, 0x3F800000, 0x7F800000, 0xFF800000, 0x7F800001, 0x7F800002, 0x7FC00000, 0xFFC00000, 0x7F800003,
+            0x00000001, 0x007FFFFF, 0x7F7FFFFF, 0x3EAAAAAB, 0x42F6E979]
+    reqs, reals, inps = [], [], []
+    for _ in range(500 if ctx.thorough else 150):
+        w = rng.choice([1, 2, 3, 5])
+        kind = rng.choice(["float1d", "float2d", "str1d"])
+        if kind == "float1d":
+            val = None if rng.random() < 0.15 else [rng.choice(pool) for _ in range(rng.choice([1, 1, 2, 3, 5, 6]))]
+            buff = np.zeros((2, w), dtype="f4")
+            try:
+                icf.sanitise_value_float_1d(buff, 0, None if val is None else np.array(val, dtype=np.uint32).view(np.float32))
+                real = buff[0].view(np.uint32).tolist()
+            except Exception:  # noqa: BLE001
+                real = "error"
+            q = {"op": "rows.float1d", "w": w, "value": val}
+        elif kind == "float2d":
+            ns = rng.choice([1, 2, 3])
+            k = rng.choice([1, 2, 3, 5, 6])
+            val = None if rng.random() < 0.15 else [[rng.choice(pool) for _ in range(k)] for _ in range(ns)]
+            buff = np.zeros((2, ns, w), dtype="f4")
+            try:
+                icf.sanitise_value_float_2d(buff, 0, None if val is None else np.array(val, dtype=np.uint32).view(np.float32))
+                real = buff[0].view(np.uint32).tolist()
+            except Exception:  # noqa: BLE001
+                real = "error"
+            q = {"op": "rows.float2d", "w": w, "samples": ns, "value": val}
+        else:
+            val = None if rng.random() < 0.15 else [rng.choice(["a", "bc", ".", "", "xyz"]) for _ in range(rng.choice([1, 2, 3, 5, 6]))]
+            buff = np.full((2, w), "?", dtype="O")
+            try:
+                icf.sanitise_value_string_1d(buff, 0, None if val is None else np.array(val, dtype="O"))
+                real = [str(x) for x in buff[0]]
+            except Exception:  # noqa: BLE001
+                real = "error"
+            q = {"op": "rows.str1d", "w": w, "value": val}
+        reqs.append(q)
+        reals.append(real)
+        inps.append({"encoder": kind, "width": w, "value": val})
+    models = ctx.driver.ask_many(reqs) if ctx.driver_ok else [None] * len(reqs)
+    for inp, real, m in zip(inps, reals, models):
+        v = inp["value"]
+        ctx.case(("row", inp["encoder"], inp["width"], repr(v)), v is not None)
+        ctx.count("row_encoder_" + inp["encoder"])
+        if m is not None and m != real:
+            ctx.disagree(f"sanitise_value_{inp['encoder']} differs from Model.Rows", inp, m, real)
+        # the statement: non-NaN floats bit-exact and in place; strings in place; missing / fill sentinels
+        if inp["encoder"] == "float1d" and v is not None and len(v) <= inp["width"] and real != "error":
+            for i, b in enumerate(v):
+                nan = (b >> 23) & 0xFF == 0xFF and b & 0x7FFFFF
+                if not nan and real[i] != b:
+                    ctx.violate(f"float bit pattern {b:#010x} stored as {real[i]:#010x}", inp, b, real[i])
+            if any(x != 0x7F800002 for x in real[len(v):]):
+                ctx.violate(f"short float vector not padded with the fill sentinel: {real}", inp, "fill", real)
+        if v is None and real != "error":
+            flat = real if not isinstance(real[0], list) else [x for r in real for x in r]
+            want = "." if inp["encoder"] == "str1d" else 0x7F800001
+            if any(x != want for x in flat):
+                ctx.violate(f"absent value not stored as the missing sentinel: {real}", inp, want, real)
+
+
 def run(ctx):
+    encoder_grid(ctx)
     work = common.scratch_dir("c01-")
     rng = ctx.rng
     try:
